@@ -608,7 +608,8 @@ class Lower:
                 arms = [b for _, b in e[2]] if e[0] == "match" else [("blockexpr", e[2])] + ([("blockexpr", e[3])] if e[3] is not None else [])
                 if not any(self.effectful(a) or self.has_return(a) for a in arms):
                     # no effects, no escape: the statement only re-binds variables -> ONE conditional VALUE (the tuple of those variables)
-                    state = sorted(x for x in self.assigned(arms, set()) if x in env)
+                    asg = self.assigned(arms, set())
+                    state = [x for x in env if x in asg]
                     tup = lambda e3: "(" + ", ".join(e3[x][0] for x in state) + ")" if len(state) != 1 else e3[state[0]][0]
                     def vbranch(blk, env2):
                         if blk[1] is not None: self.fail("value of a branch is discarded", ln)
@@ -705,8 +706,10 @@ class Lower:
                 return self.ce(it, env, kk)
         def go(lst):
             elt = elty if it[0] == "range" else holder["t"]
-            state = sorted(x for x in self.assigned(body, set()) if x in env)
-            used = sorted(x for x in self.names(body, set()) if x in env and x not in state and env[x][1] != "stream")
+            # in DECLARATION order (not by name: renaming a local must not permute the helper's arguments)
+            asg = self.assigned(body, set()); nms = self.names(body, set())
+            state = [x for x in env if x in asg]
+            used = [x for x in env if x in nms and x not in state and env[x][1] != "stream"]
             lname = "@LOOP@"
             env2 = dict(env)
             if v != "_": env2[v] = (self.lname(v), elt)
